@@ -78,6 +78,12 @@ type c18Case struct {
 	rng      *verifx.Rng
 	commits  int
 	queued   int // entries committed and not yet finalized (as observed)
+	held     [2]string // entry the slot's worker claimed and has not finalized / released yet
+	robbed   [2]bool   // another worker claimed that same entry meanwhile: this one is a straggler
+	reader   partstore.PartStore // reads whose two look-ups can be separated by a flush (idsmid)
+	midArmed atomic.Bool
+	midHit   chan struct{}
+	midGo    chan struct{}
 }
 
 func (cs *c18Case) logical(units int64) time.Time { return cs.base.Add(time.Duration(units) * time.Second) }
@@ -118,6 +124,9 @@ func newC18Case(raw database.Database, outboxID string, realTime bool, seed uint
 	}
 	cs.rawRepo = verifx.Must(repositoryfactory.NewPartOutboxEntryRepository(raw))
 	cs.writer = verifx.Must(outboxps.New(raw, cs.outboxID, cs.inner, cs.rawRepo, prometheus.NewRegistry(), cs.realDur))
+	cs.midHit, cs.midGo = make(chan struct{}), make(chan struct{})
+	cs.reader = verifx.Must(outboxps.New(raw, cs.outboxID, &c18MidInner{c18Inner: cs.inner, cs: cs}, &c18MidRepo{Repository: cs.rawRepo, cs: cs},
+		prometheus.NewRegistry(), cs.realDur))
 	for i := 0; i < c18NumParts; i++ {
 		id := verifx.Must(partstore.NewRandomPartId())
 		cs.parts = append(cs.parts, *id)
@@ -306,6 +315,12 @@ func (cs *c18Case) step(kind string, slot int) bool {
 		switch {
 		case w.claimOK:
 			cs.line("claim %d ok %d %d", slot, cs.entryOrd(w.claimID), w.claimVer)
+			cs.held[slot], cs.robbed[slot] = w.claimID, false
+			if o := 1 - slot; cs.held[o] == w.claimID {
+				if ph := cs.phase(o); ph == "claimed" || ph == "ready" {
+					cs.robbed[o] = true
+				}
+			}
 			w.mu.Unlock()
 			cs.expectNext(slot)
 			w.mu.Lock()
@@ -335,6 +350,7 @@ func (cs *c18Case) step(kind string, slot int) bool {
 		cs.expectNext(slot)
 		w.mu.Lock()
 	case "fin":
+		cs.held[slot], cs.robbed[slot] = "", false
 		if w.finDeleted {
 			cs.queued--
 			cs.line("fin %d deleted", slot)
@@ -346,6 +362,7 @@ func (cs *c18Case) step(kind string, slot int) bool {
 			cs.parked[slot] = ""
 		}
 	case "rel":
+		cs.held[slot], cs.robbed[slot] = "", false
 		cs.line("rel %d %s", slot, map[bool]string{true: "released", false: "noop"}[w.relReleased])
 		cs.parked[slot] = ""
 		cs.asleep[slot] = true // waitForPartOutboxRetry: 5 s
@@ -358,6 +375,7 @@ func (cs *c18Case) step(kind string, slot int) bool {
 }
 
 func (cs *c18Case) crash(slot int) {
+	cs.held[slot], cs.robbed[slot] = "", false
 	cs.kill(slot)
 	cs.line("crash %d", slot)
 	cs.startWorker(slot, cs.workers[slot].inc+1)
@@ -462,6 +480,88 @@ func (cs *c18Case) ids() {
 	if err != nil {
 		cs.line("ids error:%s", verifx.HexS(err.Error()))
 		return
+	}
+	sort.Ints(out)
+	cs.line("ids %s", c18JoinInts(out))
+}
+
+// A reader whose two look-ups (the outbox table, the inner store) can be separated: after the FIRST
+// of them has returned, the read pauses until the harness lets it go on. GetPartIds is not one
+// atomic step; whatever the worker flushes in between, the answer must be the committed parts.
+type c18MidRepo struct {
+	partoutboxentry.Repository
+	cs *c18Case
+}
+
+type c18MidInner struct {
+	*c18Inner
+	cs *c18Case
+}
+
+func (cs *c18Case) midPause() {
+	if cs.midArmed.CompareAndSwap(true, false) {
+		cs.midHit <- struct{}{}
+		<-cs.midGo
+	}
+}
+
+func (r *c18MidRepo) FindLastPartOutboxEntryGroupedByPartId(ctx context.Context, tx *sql.Tx, outboxId string) ([]partoutboxentry.Entity, error) {
+	es, err := r.Repository.FindLastPartOutboxEntryGroupedByPartId(ctx, tx, outboxId)
+	r.cs.midPause()
+	return es, err
+}
+
+func (in *c18MidInner) GetPartIds(ctx context.Context, tx database.Tx) ([]partstore.PartId, error) {
+	ids, err := in.c18Inner.GetPartIds(ctx, tx)
+	in.cs.midPause()
+	return ids, err
+}
+
+// idsMid: GetPartIds starts, its first look-up returns, the worker in `slot` (which is about to
+// mutate the inner store) completes its inner mutation and its finalize, then the read goes on.
+func (cs *c18Case) idsMid(slot int) {
+	if cs.phase(slot) != "ready" {
+		cs.unexpected("idsmid scheduled for worker %d in phase %s", slot, cs.phase(slot))
+		return
+	}
+	type result struct {
+		ids []partstore.PartId
+		err error
+	}
+	resCh := make(chan result, 1)
+	cs.midArmed.Store(true)
+	go func() {
+		var r result
+		r.err = database.WithTx(cs.ctx, cs.raw, &sql.TxOptions{ReadOnly: true}, func(ctx context.Context, tx database.Tx) error {
+			var err error
+			r.ids, err = cs.reader.GetPartIds(ctx, tx)
+			return err
+		})
+		resCh <- r
+	}()
+	select {
+	case <-cs.midHit:
+	case <-time.After(10 * time.Second):
+		cs.unexpected("GetPartIds made none of its two look-ups")
+		return
+	}
+	cs.step("iwrite", slot)
+	if !cs.failed && cs.phase(slot) == "written" {
+		cs.step("fin", slot)
+	}
+	cs.midGo <- struct{}{}
+	r := <-resCh
+	if r.err != nil {
+		cs.line("ids error:%s", verifx.HexS(r.err.Error()))
+		return
+	}
+	var out []int
+	for _, id := range r.ids {
+		if n, ok := cs.partOrd[id]; ok {
+			out = append(out, n)
+		} else {
+			out = append(out, 99)
+		}
 	}
 	sort.Ints(out)
 	cs.line("ids %s", c18JoinInts(out))
@@ -576,6 +676,8 @@ func (cs *c18Case) exec(s string) bool {
 		cs.get(num(1), len(t) > 2 && t[2] == "free")
 	case "ids":
 		cs.ids()
+	case "idsmid":
+		cs.idsMid(num(1))
 	case "observe":
 		cs.observe()
 	default:
@@ -612,6 +714,11 @@ func (cs *c18Case) drain() {
 			if ph := cs.phase(slot); ph == "claimed" || ph == "ready" {
 				straggler = slot
 			}
+		}
+	}
+	for slot := range cs.workers { // a worker whose entry another worker has taken is the natural straggler
+		if ph := cs.phase(slot); cs.robbed[slot] && (ph == "claimed" || ph == "ready") && cs.rng.Chance(4, 5) {
+			straggler = slot
 		}
 	}
 	if straggler >= 0 {
@@ -719,6 +826,13 @@ func (cs *c18Case) generate(steps int) {
 				cs.exec(fmt.Sprintf("crash %d", slot))
 				continue
 			}
+			if cs.robbed[slot] && (ph == "claimed" || ph == "ready") && r.Chance(3, 4) {
+				continue // a slow worker whose entry was taken over stays slow
+			}
+			if ph == "ready" && !cs.robbed[slot] && cs.held[1-slot] != cs.held[slot] && r.Chance(1, 6) {
+				cs.exec(fmt.Sprintf("idsmid %d", slot))
+				continue
+			}
 			next := c18NextOf(ph)
 			if (ph == "claimed" || ph == "ready") && r.Chance(1, 8) {
 				next = "ext"
@@ -765,11 +879,15 @@ func c18Directed() []struct {
 		"read 1", "iwrite 1", "fin 1", "claim 0", "iwrite 0", "crash 0", "expire", "claim 1", "iwrite 1", "fin 1", "claim 1", "observe", "get 0 tx", "get 1 tx", "ids"}
 	vanished := []string{"commit put:0:07", "claim 0", "expire", "claim 1", "read 1", "iwrite 1", "fin 1", "read 0", "rel 0", "crash 0",
 		"claim 1", "observe", "get 0 tx", "ids"}
+	// GetPartIds interleaved with a flush: between its two look-ups the worker replays and finalizes
+	// a pending put (the part must be listed) and later a pending delete (it must not be)
+	midread := []string{"commit put:0:01", "commit put:1:02", "claim 0", "read 0", "idsmid 0", "claim 0", "read 0", "iwrite 0", "fin 0",
+		"commit del:1", "claim 0", "idsmid 0", "claim 0", "observe", "ids"}
 	return []struct {
 		real   bool
 		script []string
 	}{{false, resurrect}, {false, loss}, {true, resurrect}, {true, loss}, {false, benign}, {false, boundary}, {false, heartbeat},
-		{false, crashes}, {false, vanished}}
+		{false, crashes}, {false, vanished}, {false, midread}}
 }
 
 func runC18(args []string) {
